@@ -242,7 +242,7 @@ pub fn run(cx: &mut Ctx) {
         }
     }
     // random longer sequences with several regions alive
-    let nrand = cx.tier.pick(6usize, 400, 5000);
+    let nrand = cx.tier.pick(6usize, 400, 40_000);
     for i in 0..nrand {
         idx += 1;
         if !cx.mine(idx) {
